@@ -319,3 +319,34 @@ Proof.
 Qed.
 
 End Recover.
+
+(** ** The collection hypothesis is satisfiable: when the table held no garbage
+    before the failed operation, a collection (no handle dropped) restores
+    exactly that table *)
+
+Lemma reach_all_handles : forall s r,
+  reachable s (handle_refs s) r ->
+  reachable (with_handles s (s_handles s)) (handle_refs (with_handles s (s_handles s))) r.
+Proof.
+  intros s r R. induction R as [r Hin|id nd e R IH E He].
+  - apply reach_root. exact Hin.
+  - apply (reach_child _ _ id nd e IH E He).
+Qed.
+
+Theorem gc_restores : forall s s', BddOK s -> extends s s' ->
+  (forall id nd, find_node s id = Some nd -> reachable s (handle_refs s) (RN id)) ->
+  collected (with_handles s' (s_handles s')) s.
+Proof.
+  intros s s' B X Hlive. constructor; simpl.
+  - symmetry. apply (ext_kind _ _ X).
+  - symmetry. apply (ext_terms _ _ X).
+  - symmetry. apply (ext_v2l _ _ X).
+  - symmetry. apply (ext_l2v _ _ X).
+  - symmetry. apply (ext_handles _ _ X).
+  - intros id nd. change (find_node (with_handles s' (s_handles s')) id) with (find_node s' id). split.
+    + intros E. split; [apply (ext_nodes _ _ X id nd E)|].
+      apply reach_all_handles. apply (reach_new s s' X). apply (Hlive id nd E).
+    + intros [E' R']. apply (reach_with_handles s' (s_handles s') _ (incl_refl _)) in R'.
+      destruct (reach_old s s' (bo_wf s B) X _ R') as [[nd0 E0] _].
+      pose proof (ext_nodes _ _ X id nd0 E0) as E0'. rewrite E' in E0'. inversion E0'; subst. exact E0.
+Qed.
